@@ -117,6 +117,15 @@ def main(pid, tier, seed):
             failing = list(v[1]) if isinstance(v[1], (tuple, list)) else [v[1]]
             verdict.violation(dict(m, clause='+'.join(failing), failing=failing, check='U+0130' if 'İ' in m['password'] else m['kind']),
                               'clauses %s; password %r' % (failing, m['password']))
+    def corrupt(t):
+        fin = t['snaps'][-1]['sl']
+        k = next((i for i, sec in enumerate(fin) if sec['k'] in ('A', 'D', 'O') and sec['n'] >= 1), None)
+        if k is None:
+            return None
+        fin[k]['n'] += 1                             # a length-indexed label that lies about its segment
+        return t
+    accepted = [t for t in traces if verdicts[t['tid']][0] == 'ACCEPT']
+    selftest = core.binding_selftest('TrSeg.tla', accepted, corrupt)
     verdict.matcher('C05-F11-dotted-capital-i', lambda w: 'İ' in w.get('password', ''))
     rc, n_viol, n_known = verdict.finish()
     distinct = len({meta[t['tid']]['password'] for t in traces if len(t['snaps'][-1]['sl']) > 1})
@@ -129,7 +138,7 @@ def main(pid, tier, seed):
                    'counter deltas; non-trivial = more than one final segment; distinct by password',
            'model_space_strings_parsed': len(strings),
            'impl_conformance': {'compared': len(strings) - n_kfired, 'keyboard_stage_fired': n_kfired, 'result': 'drift' if drift else 'conforms', 'drift_examples': drift[:3]},
-           'trace_validation': st, 'exhaustive': False, 'known_findings_reproduced': n_known,
+           'trace_validation': st, 'exhaustive': False, 'known_findings_reproduced': n_known, 'binding_selftest': selftest,
            'violation_histogram': verdict.histogram()}
     core.write_evidence(pid, tier, seed, 'model_checking', cov, time.time() - t0, violations=n_viol,
                         assumptions=['TLC', 'character attributes (isalpha, isdigit, isupper, lower) taken from Python str methods',
